@@ -361,7 +361,7 @@ impl C15 {
         }
         out.nontrivial = true;
         out.fp = u;
-        out.extra_fps = (0..accepted).map(|i| (u << 32) | i).collect();
+        out.extra_distinct = accepted.saturating_sub(1);
         out.desc = json!({"prefix": String::from_utf8_lossy(&prefix), "inputs": out.evals, "accepted": accepted});
         out
     }
